@@ -50,3 +50,63 @@ Definition live_record12 (id : N) (is_client : bool)
     | _ => None
     end
   end.
+
+(* ---------------- receive direction: records a conforming PEER may send ----------------
+   Built from the key block with the peer's write keys; for AES-GCM/CCM the explicit nonce is a
+   free 8-byte value carried in the record (RFC 5288 section 3 / RFC 6655 section 3), for CBC any
+   padding length 0..255 is allowed, the inner plaintext of connection-ID / DTLS 1.3 records may
+   carry zero padding.  The last two outputs are what the receiver must produce: accepted (1) and
+   the plaintext. *)
+Definition record12_ccm_rx (key write_iv cid payload explicit : bytes) (e s t v tag : N) : bytes :=
+  header12 t v e s (hdr_cid_of t cid) (aes_aead_record_len (len payload) tag) ++ explicit ++
+  ccm_seal key tag (nonce_aes_rx write_iv explicit) payload (aad12_for e s t v cid (len payload)).
+
+Definition record12_cbc_rx (mac enc_key iv cid payload : bytes) (padlen e s t v : N) : bytes :=
+  let pt := cbc_plaintext_pad payload mac padlen in
+  header12 t v e s (hdr_cid_of t cid) (16 + len pt) ++ iv ++ aes_cbc_encrypt enc_key iv pt.
+
+Definition receive12 (id : N) (receiver_is_client : bool) (ms cr sr cid payload explicit : bytes)
+    (padlen e s t v : N) : option (list bytes) :=
+  match suite12 id with
+  | None => None
+  | Some p =>
+    let H := hash_of_code (s_prf p) in
+    let k := encryption_keys H ms cr sr (s_mac p) (s_key p) (s_iv p) in
+    let peer := negb receiver_is_client in
+    let pk := write_key peer k in
+    let piv := write_iv peer k in
+    let pl := len payload in
+    let hc := hdr_cid_of t cid in
+    let verdict := [[1]; payload] in
+    match s_kind p with
+    | CK_GCM =>
+        Some ([pk; piv; nonce_aes_rx piv explicit; aad12_for e s t v cid pl;
+               header12 t v e s hc (aes_aead_record_len pl 16)] ++ verdict)
+    | CK_CCM tag => Some ([pk; piv; record12_ccm_rx pk piv cid payload explicit e s t v tag] ++ verdict)
+    | CK_CHACHA =>
+        Some ([pk; piv; nonce_chacha piv e s; aad12_for e s t v cid pl;
+               header12 t v e s hc (chacha_record_len pl)] ++ verdict)
+    | CK_CBC mh =>
+        let pm := write_mac peer k in
+        let HM := hash_of_code mh in
+        let mac := if t =? ct_tls12_cid then cbc_mac_cid HM pm e s v cid payload
+                   else cbc_mac HM pm e s t v payload in
+        Some ([pm; pk; record12_cbc_rx mac pk explicit cid payload padlen e s t v] ++ verdict)
+    end
+  end.
+
+From DtlsV Require Import Crypto.C10Hkdf.
+
+Definition receive13 (id : N) (secret cid plaintext mask : bytes) (seq_bit len_bit : bool)
+    (epoch_low seq64 ctype tag_len zeros : N) : option (list bytes) :=
+  match suite13 id with
+  | None => None
+  | Some (hc, kl) =>
+    let H := hash_of_code hc in
+    let iv := traffic_iv H secret in
+    let inner := inner_plaintext plaintext ctype zeros in
+    let ctlen := len inner + tag_len in
+    Some [traffic_key H secret kl; iv; traffic_sn_key H secret kl;
+          nonce13 iv seq64; aad13_gen cid seq_bit len_bit epoch_low seq64 ctlen; inner;
+          header13_masked_gen cid seq_bit len_bit epoch_low seq64 ctlen mask; [1]; plaintext]
+  end.
